@@ -1,11 +1,47 @@
 /-
   C10 — string, bytes and conversion built-ins are total, 8-bit clean and consistent.
-  Property theorems only (helper lemmas in Proofs/Lemmas/Bytes.lean).
+  Property theorems only. Helper lemmas: Proofs/Lemmas/{Bytes,Base64,Digits,NoHazard,Text}.lean.
+  Independent specification: Spec/Text.lean (substr/lsubstr/rsubstr on mathematical integers, first
+  occurrence, join). Model: Model/Builtins.lean (blocc/builtin/builtin_*.cpp, base64.cpp), instantiated
+  at `m := Res` exactly as the driver's `bi` command runs it; Model/Members.lean for `put`/`concat`.
+
+  Everything is quantified over ALL byte lists (any 8-bit content, NUL and high bytes included), ALL
+  `Int64` positions/counts/codes and, for the totality theorem, ALL argument lists of ALL values.
+  Two hypotheses recur and are decidable:
+    `s.length < 2 ^ 63`   the length fits `int64_t` (the C++ stores `size()` into an int64_t; no
+                          std::string can be longer) — part of `Lemmas.wfVal`;
+    `Lemmas.wfVal v`      a table value carries a table type (level ≥ 1), as every `Collection` does.
+
+    b64dec_b64enc, b64_builtin_roundtrip          b64dec(b64enc(x)) = x, all byte lists
+    int_str_roundtrip, stoll_to_string            int(str(i)) = i, all Int64 (INT64_MIN included)
+    substr_contract(2), subraw_contract(2)        = Spec.Text.substr, a sublist of x; begin = INT64_MIN: the hazard
+    substr_full_false                             … so the unrestricted statement is false (witness)
+    lsubstr_contract, rsubstr_contract            = Spec.Text.lsubstr / rsubstr, no exclusion
+    substr_null_in_null_out, …                    null / untyped null in → typed null out
+    substr_returns_sublist                        every argument list: typed null, the argument itself, or a sublist
+    text_builtins_no_hazard                       21 built-ins × every argument list: never a C-level hazard
+                                                  outside `knownHazard` (substr/subraw INT64_MIN, hex pad count)
+    hex_hazard_region                             the hex region is exact
+    strpos_contract, strpos_negative_start        first occurrence at or after start, or null
+    replace_empty_needle, replace_absent_needle   the input comes back
+    upper_length, lower_length, trim_infix, …     length preserved / result is a sublist
+    hex_digits                                    1..16 lower-case hex digits
+    tokenize_join                                 pieces joined by the separator = the string (trimnull off)
+    strlen_value
+    raw_contract, hash_range                      raw(n, v): size ≥ 0, code 0..255; hash(x, m) ∈ [0, m), m outside 1..2^32−1 refused
+    chr_byte_range, charArg_range, put_*_code_range, concat_*_code_range   codes outside 0..255: OUT_OF_RANGE
 -/
-import BlocV.Model.Builtins
+import BlocV.Proofs.Lemmas.Base64
+import BlocV.Proofs.Lemmas.Digits
+import BlocV.Proofs.Lemmas.NoHazard
+import BlocV.Proofs.Lemmas.Text
+import BlocV.Proofs.Lemmas.Int64
+import BlocV.Model.Members
 
 namespace BlocV.C10
-open BlocV
+open BlocV BlocV.Lemmas
+
+/-! ## chr -/
 
 /-- `chr` accepts an integer code exactly when it lies in 0..255, and then yields that single byte;
 every other code is rejected with OUT_OF_RANGE. -/
@@ -20,17 +56,608 @@ theorem chr_byte_range (c : Int64) :
   · have a : ¬ (c < 0) := by rw [h0]; omega
     have b : ¬ (c > 255) := by rw [h1]; omega
     simp [biChr, Val.type, Val.isNull, Val.asInt, Ty.int, hc, a, b, bind]
-    rfl
   · have : (c < 0) ∨ (c > 255) := by
       rw [h0, h1]; omega
     rcases this with a | b
     · simp [biChr, Val.type, Val.isNull, Val.asInt, Ty.int, hc, a, bind]
-      rfl
     · simp [biChr, Val.type, Val.isNull, Val.asInt, Ty.int, hc, b, bind]
-      rfl
 
 example : biChr (m := Res) [.ok (.int 65)] = .ok (.str [65]) := by rfl
 example : biChr (m := Res) [.ok (.int 256)] = .err Gen.EXC_RT_OUT_OF_RANGE := by rfl
 example : biChr (m := Res) [.ok (.null Ty.int)] = .ok (.null Ty.str) := by rfl
+
+/-! ## Base64 -/
+
+/-- **b64dec(b64enc(x)) = x** for every byte list (any length, any 8-bit content): the decoder of
+blocc/builtin/base64.cpp (main loop over 4-character groups, then the `pad1`/`pad2` tail) applied to
+the encoder's output gives back the input. -/
+theorem b64dec_b64enc (x : Bytes) : b64decode (b64encode x) = x := b64decode_b64encode x
+
+example : b64encode [0, 255, 128, 10] = "AP+ACg==".toUTF8.toList := by decide +kernel
+example : b64decode (b64encode [0, 255, 128, 10]) = [0, 255, 128, 10] := b64dec_b64enc _
+
+/-- The same through the built-ins as the interpreter dispatches them: `b64dec(b64enc(v))` for a
+string or a byte array `v` with content `x` is the byte array `x`. -/
+theorem b64_builtin_roundtrip (fmt : Num.F64 → Bytes) (v : Val) (x : Bytes) (hv : v = .str x ∨ v = .raw x) :
+    (do let e ← (evalBuiltin (m := Res) fmt "b64enc" [.ok v]).getD .unmodelled
+        (evalBuiltin (m := Res) fmt "b64dec" [.ok e]).getD .unmodelled) = .ok (.raw x) := by
+  rcases hv with rfl | rfl
+  · show Res.ok (Val.raw (b64decode (b64encode x))) = _
+    rw [b64decode_b64encode]
+  · show Res.ok (Val.raw (b64decode (b64encode x))) = _
+    rw [b64decode_b64encode]
+
+example (fmt : Num.F64 → Bytes) :
+    (do let e ← (evalBuiltin (m := Res) fmt "b64enc" [.ok (.raw [0, 200])]).getD .unmodelled
+        (evalBuiltin (m := Res) fmt "b64dec" [.ok e]).getD .unmodelled) = .ok (.raw [0, 200]) :=
+  b64_builtin_roundtrip fmt _ _ (.inr rfl)
+
+/-! ## int(str(i)) = i -/
+
+/-- `std::stoll(std::to_string(i)) = i` for every `int64_t`, INT64_MIN included (digit rendering
+`natDigits`, sign, whitespace skip, digit scan and range test of the `stoll` model). -/
+theorem stoll_to_string (i : Int64) : stoll (intToString i) = .val i.toInt := stoll_intToString i
+
+/-- **int(str(i)) = i** through the built-ins, for every integer: `str` renders the decimal digits,
+`int` sees no hexadecimal prefix and parses them back with `stoll`. -/
+theorem int_str_roundtrip (fmt : Num.F64 → Bytes) (i : Int64) :
+    (do let s ← (evalBuiltin (m := Res) fmt "str" [.ok (.int i)]).getD .unmodelled
+        (evalBuiltin (m := Res) fmt "int" [.ok s]).getD .unmodelled) = .ok (.int i) := by
+  show biInt (m := Res) [.ok (.str (intToString i))] = _
+  have h : biInt (m := Res) [.ok (.str (intToString i))] =
+      if looksHex (intToString i) then
+        match stoull16 (intToString i) with
+        | .invalid => .err Gen.EXC_RT_STRING_TO_NUM
+        | .range => .err Gen.EXC_RT_OUT_OF_RANGE
+        | .val z => .ok (.int (Int64.ofInt z))
+      else match stoll (intToString i) with
+        | .invalid => .err Gen.EXC_RT_STRING_TO_NUM
+        | .range => .err Gen.EXC_RT_OUT_OF_RANGE
+        | .val z => .ok (.int (Int64.ofInt z)) := by rfl
+  rw [h, looksHex_intToString, stoll_intToString]
+  simp
+
+example : intToString Int64.minValue = "-9223372036854775808".toUTF8.toList := by decide +kernel
+example (fmt : Num.F64 → Bytes) :
+    (do let s ← (evalBuiltin (m := Res) fmt "str" [.ok (.int Int64.minValue)]).getD .unmodelled
+        (evalBuiltin (m := Res) fmt "int" [.ok s]).getD .unmodelled) = .ok (.int Int64.minValue) :=
+  int_str_roundtrip fmt _
+
+/-! ## substr / subraw / lsubstr / rsubstr -/
+
+/-- **substr(x, begin, count)** for every string of representable length and ALL `Int64` positions
+and counts (negative, zero, oversized): the result is `Spec.Text.substr` — hence a contiguous
+sublist of `x` (`Spec.Text.substr_infix`) — except when `x` is non-empty and `begin = INT64_MIN`,
+where `c - a` overflows in builtin_substr.cpp (recorded finding C10.substr.signedOverflow). -/
+theorem substr_contract (s : Bytes) (hlen : s.length < 2 ^ 63) (a0 b0 : Int64) :
+    biSubstr (m := Res) [.ok (.str s), .ok (.int a0), .ok (.int b0)] =
+      if s ≠ [] ∧ a0 = Int64.minValue then .haz .signedOverflow
+      else .ok (.str (Spec.Text.substr s a0.toInt (some b0.toInt))) := by
+  rw [biSubstr, substrLike_res3]
+  by_cases hs : s = []
+  · subst hs; simp [Val.type, Ty.str, readPos, Val.isNull, Val.asStr, Val.asInt, Ty.int, lenI, spec_substr_nil]
+  · have hz : (lenI s == 0) = false := by rw [lenI_eq_zero s hlen]; simpa using hs
+    have hz' : ¬ lenI s = 0 := by simpa using hz
+    by_cases hm : a0 = Int64.minValue <;>
+      simp [Val.type, Ty.str, readPos, Val.isNull, Val.asStr, Val.asInt, Ty.int, hz', substrTail_spec s hlen hs, hs, hm]
+
+/-- `substr(x, begin)`: the same with the count absent (everything from `begin`). -/
+theorem substr_contract2 (s : Bytes) (hlen : s.length < 2 ^ 63) (a0 : Int64) :
+    biSubstr (m := Res) [.ok (.str s), .ok (.int a0)] =
+      if s ≠ [] ∧ a0 = Int64.minValue then .haz .signedOverflow
+      else .ok (.str (Spec.Text.substr s a0.toInt none)) := by
+  rw [biSubstr, substrLike_res2]
+  by_cases hs : s = []
+  · subst hs; simp [Val.type, Ty.str, readPos, Val.isNull, Val.asStr, Val.asInt, Ty.int, lenI, spec_substr_nil]
+  · have hz : (lenI s == 0) = false := by rw [lenI_eq_zero s hlen]; simpa using hs
+    have hz' : ¬ lenI s = 0 := by simpa using hz
+    by_cases hm : a0 = Int64.minValue <;>
+      simp [Val.type, Ty.str, readPos, Val.isNull, Val.asStr, Val.asInt, Ty.int, hz', substrTail_spec s hlen hs, hs, hm]
+    simp [Spec.Text.substr, lenI_toInt s hlen]
+
+/-- `subraw(x, begin, count)` on byte arrays: same contract (builtin_subraw.cpp). -/
+theorem subraw_contract (s : Bytes) (hlen : s.length < 2 ^ 63) (a0 b0 : Int64) :
+    biSubraw (m := Res) [.ok (.raw s), .ok (.int a0), .ok (.int b0)] =
+      if s ≠ [] ∧ a0 = Int64.minValue then .haz .signedOverflow
+      else .ok (.raw (Spec.Text.substr s a0.toInt (some b0.toInt))) := by
+  rw [biSubraw, substrLike_res3]
+  by_cases hs : s = []
+  · subst hs; simp [Val.type, Ty.raw, readPos, Val.isNull, Val.asRaw, Val.asInt, Ty.int, lenI, spec_substr_nil]
+  · have hz : (lenI s == 0) = false := by rw [lenI_eq_zero s hlen]; simpa using hs
+    have hz' : ¬ lenI s = 0 := by simpa using hz
+    by_cases hm : a0 = Int64.minValue <;>
+      simp [Val.type, Ty.raw, readPos, Val.isNull, Val.asRaw, Val.asInt, Ty.int, hz', substrTail_spec s hlen hs, hs, hm]
+
+theorem subraw_contract2 (s : Bytes) (hlen : s.length < 2 ^ 63) (a0 : Int64) :
+    biSubraw (m := Res) [.ok (.raw s), .ok (.int a0)] =
+      if s ≠ [] ∧ a0 = Int64.minValue then .haz .signedOverflow
+      else .ok (.raw (Spec.Text.substr s a0.toInt none)) := by
+  rw [biSubraw, substrLike_res2]
+  by_cases hs : s = []
+  · subst hs; simp [Val.type, Ty.raw, readPos, Val.isNull, Val.asRaw, Val.asInt, Ty.int, lenI, spec_substr_nil]
+  · have hz : (lenI s == 0) = false := by rw [lenI_eq_zero s hlen]; simpa using hs
+    have hz' : ¬ lenI s = 0 := by simpa using hz
+    by_cases hm : a0 = Int64.minValue <;>
+      simp [Val.type, Ty.raw, readPos, Val.isNull, Val.asRaw, Val.asInt, Ty.int, hz', substrTail_spec s hlen hs, hs, hm]
+    simp [Spec.Text.substr, lenI_toInt s hlen]
+
+/-- What "never reads outside the data" means for the slice: whatever `substr`/`subraw` return on a
+string is a contiguous sublist of the argument. -/
+theorem substr_result_infix (s : Bytes) (hlen : s.length < 2 ^ 63) (a0 b0 : Int64) (r : Bytes)
+    (h : biSubstr (m := Res) [.ok (.str s), .ok (.int a0), .ok (.int b0)] = .ok (.str r)) : r <:+: s := by
+  rw [substr_contract s hlen] at h
+  split at h
+  · cases h
+  · injection h with h; injection h with h; subst h; exact Spec.Text.substr_infix _ _ _
+
+example : biSubstr (m := Res) [.ok (.str [104, 0, 255, 108, 111]), .ok (.int (-3)), .ok (.int 2)] = .ok (.str [255, 108]) := by
+  rw [substr_contract _ (by decide)]; rfl
+example : biSubstr (m := Res) [.ok (.str [1, 2, 3]), .ok (.int 9223372036854775807), .ok (.int (-5))] = .ok (.str []) := by
+  rw [substr_contract _ (by decide)]; rfl
+
+/-- The unrestricted statement "substr never reaches undefined behaviour" is FALSE for the model (and
+for the pinned code, UBSan: `substr("ab", -9223372036854775807-1)`): witness. -/
+theorem substr_full_false :
+    ¬ ∀ (s : Bytes) (a0 : Int64), (biSubstr (m := Res) [.ok (.str s), .ok (.int a0)]).isHazard = false := by
+  intro h
+  have := h [97, 98] Int64.minValue
+  rw [substr_contract2 _ (by decide)] at this
+  simp [Res.isHazard] at this
+
+/-- **lsubstr(x, count)**: the first `count` bytes, for ALL counts; no exclusion. -/
+theorem lsubstr_contract (s : Bytes) (hlen : s.length < 2 ^ 63) (b : Int64) :
+    lrSubstr (m := Res) true [.ok (.str s), .ok (.int b)] = .ok (.str (Spec.Text.lsubstr s b.toInt)) := by
+  rw [lrSubstr_res]
+  by_cases hs : s = []
+  · subst hs; simp [Val.type, Ty.str, readPos, Val.isNull, Val.asStr, Val.asInt, Ty.int, lenI, Spec.Text.lsubstr]
+  · have hz : (lenI s == 0) = false := by rw [lenI_eq_zero s hlen]; simpa using hs
+    have hz' : ¬ lenI s = 0 := by simpa using hz
+    simp [Val.type, Ty.str, readPos, Val.isNull, Val.asStr, Val.asInt, Ty.int, hz', ltake_spec s hlen]
+
+/-- **rsubstr(x, count)**: the last `count` bytes, for ALL counts; no exclusion. -/
+theorem rsubstr_contract (s : Bytes) (hlen : s.length < 2 ^ 63) (b : Int64) :
+    lrSubstr (m := Res) false [.ok (.str s), .ok (.int b)] = .ok (.str (Spec.Text.rsubstr s b.toInt)) := by
+  rw [lrSubstr_res]
+  by_cases hs : s = []
+  · subst hs; simp [Val.type, Ty.str, readPos, Val.isNull, Val.asStr, Val.asInt, Ty.int, lenI, Spec.Text.rsubstr]
+  · have hz : (lenI s == 0) = false := by rw [lenI_eq_zero s hlen]; simpa using hs
+    have hz' : ¬ lenI s = 0 := by simpa using hz
+    simp [Val.type, Ty.str, readPos, Val.isNull, Val.asStr, Val.asInt, Ty.int, hz', rdrop_spec s hlen]
+
+example : lrSubstr (m := Res) true [.ok (.str [1, 2, 3]), .ok (.int (-4))] = .ok (.str []) := by
+  rw [lsubstr_contract _ (by decide)]; rfl
+example : lrSubstr (m := Res) false [.ok (.str [1, 2, 3]), .ok (.int Int64.minValue)] = .ok (.str []) := by
+  rw [rsubstr_contract _ (by decide)]; rfl
+example : lrSubstr (m := Res) false [.ok (.str [1, 2, 3]), .ok (.int 9223372036854775807)] = .ok (.str [1, 2, 3]) := by
+  rw [rsubstr_contract _ (by decide)]; rfl
+
+/-- Null in → typed null out: an untyped null first argument gives a null string (null bytes for
+`subraw`) whatever the other arguments are (they are not even evaluated). -/
+theorem substr_untyped_null (t : Ty) (ht : t.major = .none) (rest : List (Res Val)) (t1 : Res Val) :
+    biSubstr (m := Res) (.ok (.null t) :: t1 :: rest) = .ok (.null Ty.str) ∧
+    biSubraw (m := Res) (.ok (.null t) :: t1 :: rest) = .ok (.null Ty.raw) ∧
+    lrSubstr (m := Res) true (.ok (.null t) :: t1 :: rest) = .ok (.null Ty.str) ∧
+    lrSubstr (m := Res) false (.ok (.null t) :: t1 :: rest) = .ok (.null Ty.str) := by
+  simp [biSubstr, biSubraw, substrLike, lrSubstr, Val.type, ht]
+
+/-- A null string stays the null string, and a null position or count returns the first argument
+unchanged, for every integer position. -/
+theorem substr_null_in_null_out (s : Bytes) (a0 : Int64) :
+    biSubstr (m := Res) [.ok (.null Ty.str), .ok (.int a0)] = .ok (.null Ty.str) ∧
+    biSubstr (m := Res) [.ok (.str s), .ok (.null Ty.int)] = .ok (.str s) ∧
+    biSubstr (m := Res) [.ok (.str s), .ok (.int a0), .ok (.null Ty.int)] = .ok (.str s) ∧
+    biSubraw (m := Res) [.ok (.null Ty.raw), .ok (.int a0)] = .ok (.null Ty.raw) ∧
+    lrSubstr (m := Res) true [.ok (.null Ty.str), .ok (.int a0)] = .ok (.null Ty.str) ∧
+    lrSubstr (m := Res) false [.ok (.str s), .ok (.null Ty.int)] = .ok (.str s) := by
+  refine ⟨rfl, rfl, rfl, rfl, rfl, rfl⟩
+
+/-- **substr / subraw on EVERY argument list** (any number of arguments, any values: nulls, typed
+nulls, tables, decimals, every `Int64`): if a value is returned at all it is the typed null, or the
+first argument itself (null string, null position or count, empty string), or a string/byte array
+whose content is a contiguous sublist of the first argument's content — nothing outside the data is
+ever read. No hypothesis. (That the only other outcomes are BLOC errors is `text_builtins_no_hazard`.) -/
+theorem substr_returns_sublist (args : List Val) (x : Val) :
+    (biSubstr (m := Res) (args.map .ok) = .ok x → SubShape Ty.str Val.str args x) ∧
+    (biSubraw (m := Res) (args.map .ok) = .ok x → SubShape Ty.raw Val.raw args x) :=
+  ⟨substrLike_ok_shape _ _ _ _ (fun v s h => .inl (asStr_ok v s h)) args x,
+   substrLike_ok_shape _ _ _ _ (fun v s h => .inr (asRaw_ok v s h)) args x⟩
+
+example : SubShape Ty.str Val.str [.str [1, 2, 3], .num 0x4000000000000000] (.str [3]) :=
+  (substr_returns_sublist [.str [1, 2, 3], .num 0x4000000000000000] (.str [3])).1 (by rfl)
+
+/-! ## No C-level hazard, for every argument list -/
+
+/-- The regions still recorded as known findings (known_findings.json, status "known"):
+C10.substr.signedOverflow / C10.subraw.signedOverflow (= C01.bi.substr.overflow, C01.bi.subraw.overflow)
+and C10.hex.signedOverflow (= C01.bi.hex.overflow). A decidable predicate on (name, argument values). -/
+def knownHazard (name : String) (args : List Val) : Bool :=
+  ((name == "substr" || name == "subraw") && substrKF args) || (name == "hex" && hexKF args)
+
+/-- The built-ins covered by the totality theorem. -/
+def textBuiltins : List String :=
+  ["substr", "subraw", "lsubstr", "rsubstr", "strpos", "replace", "trim", "ltrim", "rtrim", "upper", "lower",
+   "strlen", "tokenize", "hex", "hash", "chr", "raw", "int", "b64enc", "b64dec", "str"]
+
+/-- **Totality without undefined behaviour.** For each of the 21 string/bytes/conversion built-ins and
+EVERY argument list — any number of arguments, of any types (also those the parse-time signature
+table would refuse), nulls, typed nulls, tables, tuples, every `Int64`, every decimal bit pattern,
+every byte list — the built-in is dispatched and its outcome is a value, a BLOC runtime error or
+"unmodelled" (imaginary operand of `int`), never a C-level hazard (null dereference, signed
+overflow, out-of-range float→int cast), provided the arguments are well-formed values and lie
+outside the recorded finding regions `knownHazard`. -/
+theorem text_builtins_no_hazard (fmt : Num.F64 → Bytes) (name : String) (hname : name ∈ textBuiltins) (args : List Val)
+    (hwf : ∀ v ∈ args, wfVal v = true) (hkf : knownHazard name args = false) :
+    ∃ r, evalBuiltin (m := Res) fmt name (args.map .ok) = some r ∧ r.isHazard = false := by
+  simp only [textBuiltins, List.mem_cons, List.not_mem_nil, or_false] at hname
+  rcases hname with rfl | rfl | rfl | rfl | rfl | rfl | rfl | rfl | rfl | rfl | rfl | rfl | rfl | rfl | rfl | rfl | rfl | rfl | rfl | rfl | rfl
+  · exact ⟨_, rfl, substrLike_nh _ _ _ _ (fun v s h => .inl (asStr_ok v s h)) asStr_nh args hwf (by simpa [knownHazard] using hkf)⟩
+  · exact ⟨_, rfl, substrLike_nh _ _ _ _ (fun v s h => .inr (asRaw_ok v s h)) asRaw_nh args hwf (by simpa [knownHazard] using hkf)⟩
+  · exact ⟨_, rfl, lrSubstr_nh _ args hwf⟩
+  · exact ⟨_, rfl, lrSubstr_nh _ args hwf⟩
+  · exact ⟨_, rfl, strpos_nh args hwf⟩
+  · exact ⟨_, rfl, replace_nh args hwf⟩
+  · exact ⟨_, rfl, strMap_nh _ args hwf⟩
+  · exact ⟨_, rfl, strMap_nh _ args hwf⟩
+  · exact ⟨_, rfl, strMap_nh _ args hwf⟩
+  · exact ⟨_, rfl, strMap_nh _ args hwf⟩
+  · exact ⟨_, rfl, strMap_nh _ args hwf⟩
+  · exact ⟨_, rfl, strlen_nh args hwf⟩
+  · exact ⟨_, rfl, tokenize_nh args hwf⟩
+  · exact ⟨_, rfl, hex_nh args hwf (by simpa [knownHazard] using hkf)⟩
+  · exact ⟨_, rfl, hash_nh args hwf⟩
+  · exact ⟨_, rfl, chr_nh args hwf⟩
+  · exact ⟨_, rfl, raw_nh args hwf⟩
+  · exact ⟨_, rfl, int_nh args hwf⟩
+  · exact ⟨_, rfl, b64_nh _ args hwf⟩
+  · exact ⟨_, rfl, b64_nh _ args hwf⟩
+  · exact ⟨_, rfl, str_nh _ args hwf⟩
+
+/-- instances: a typed-null start position of `strpos` (the repaired null dereference), `hash` with
+zero buckets, a table where a string is expected, `substr` just beside the excluded point. -/
+example (fmt : Num.F64 → Bytes) : ∃ r, evalBuiltin (m := Res) fmt "strpos"
+    ([.str [97], .str [97], .null Ty.int].map .ok) = some r ∧ r.isHazard = false :=
+  text_builtins_no_hazard fmt _ (by decide) _ (by decide) (by decide)
+example (fmt : Num.F64 → Bytes) : ∃ r, evalBuiltin (m := Res) fmt "hash"
+    ([.str [97], .int 0].map .ok) = some r ∧ r.isHazard = false :=
+  text_builtins_no_hazard fmt _ (by decide) _ (by decide) (by decide)
+example (fmt : Num.F64 → Bytes) : ∃ r, evalBuiltin (m := Res) fmt "upper"
+    ([.tab { major := .str, level := 1 } [] [.str [97]]].map .ok) = some r ∧ r.isHazard = false :=
+  text_builtins_no_hazard fmt _ (by decide) _ (by decide) (by decide)
+example (fmt : Num.F64 → Bytes) : ∃ r, evalBuiltin (m := Res) fmt "substr"
+    ([.str [97, 98], .int (-9223372036854775807)].map .ok) = some r ∧ r.isHazard = false :=
+  text_builtins_no_hazard fmt _ (by decide) _ (by decide) (by decide +kernel)
+example : knownHazard "substr" [.str [97, 98], .int Int64.minValue] = true := by decide +kernel
+example : knownHazard "hex" [.int 0, .int 9223372036854775807] = true := by decide +kernel
+
+/-- The `hex` region is exact: with an integer value and an integer pad count `n`, the `n += 1` of
+`HEXExpression::hex` overflows (undefined behaviour) if and only if `n > INT64_MAX − 15`. -/
+theorem hex_hazard_region (v n : Int64) :
+    biHex (m := Res) [.ok (.int v), .ok (.int n)] = .haz .signedOverflow ↔ n.toInt + 15 ≥ 2 ^ 63 := by
+  have e : biHex (m := Res) [.ok (.int v), .ok (.int n)] = hexLoop v 15 n 0 [] >>= fun s => .ok (.str s) := by rfl
+  rw [e]
+  constructor
+  · intro h
+    apply Decidable.byContradiction
+    intro hc
+    have := hexLoop_nh v 15 n 0 [] (by omega)
+    cases hl : hexLoop v 15 n 0 [] with
+    | haz x => rw [hl] at this; simp [Res.isHazard] at this
+    | ok a => rw [hl] at h; cases h
+    | err c x => rw [hl] at h; cases h
+    | unmodelled => rw [hl] at h; cases h
+  · intro h
+    rw [hexLoop_haz v 15 n 0 [] (by decide) (by omega)]; rfl
+
+example : biHex (m := Res) [.ok (.int 0), .ok (.int 9223372036854775807)] = .haz .signedOverflow :=
+  (hex_hazard_region 0 9223372036854775807).mpr (by decide)
+
+/-! ## strpos -/
+
+/-- **strpos(x, y, z)** for all strings and every start position `z ≥ 0`: the result is an index `p`
+that is the FIRST occurrence of `y` in `x` at or after `z` (`y` is a prefix of `drop p x`, `p ≤ |x|`,
+and no smaller index ≥ z has that property), or null when there is none. -/
+theorem strpos_contract (hay needle : Bytes) (st : Int64) (hst : 0 ≤ st.toInt) :
+    (∃ p, biStrpos (m := Res) [.ok (.str hay), .ok (.str needle), .ok (.int st)] = .ok (.int (Int64.ofNat p)) ∧
+        Spec.Text.FirstOcc hay needle st.toInt.toNat p) ∨
+    (biStrpos (m := Res) [.ok (.str hay), .ok (.str needle), .ok (.int st)] = .ok (.null Ty.int) ∧
+        Spec.Text.NoOcc hay needle st.toInt.toNat) := by
+  have hn : ¬ st < 0 := by rw [lt_zero_iff]; omega
+  have e : biStrpos (m := Res) [.ok (.str hay), .ok (.str needle), .ok (.int st)] =
+      match findFrom hay needle st.toNatClampNeg with
+      | some p => .ok (.int (Int64.ofNat p))
+      | none => .ok (.null Ty.int) := by
+    simp [biStrpos, Val.type, Val.isNull, Val.asInt, Val.asStr, Ty.str, Ty.int, hn]
+    rfl
+  obtain ⟨h1, h2⟩ := findFrom_spec hay needle st.toNatClampNeg
+  rw [e]
+  cases hf : findFrom hay needle st.toNatClampNeg with
+  | some p => exact .inl ⟨p, rfl, h1 p hf⟩
+  | none => exact .inr ⟨rfl, h2 hf⟩
+
+/-- A negative start position is refused with INDEX_RANGE, for all strings. -/
+theorem strpos_negative_start (hay needle : Bytes) (st : Int64) (hst : st.toInt < 0) :
+    biStrpos (m := Res) [.ok (.str hay), .ok (.str needle), .ok (.int st)] = .err Gen.EXC_RT_INDEX_RANGE_S := by
+  have hn : st < 0 := by rw [lt_zero_iff]; exact hst
+  simp [biStrpos, Val.type, Val.isNull, Val.asInt, Val.asStr, Ty.str, Ty.int, hn]
+
+/-- Two-argument form: first occurrence from the beginning. -/
+theorem strpos_contract2 (hay needle : Bytes) :
+    (∃ p, biStrpos (m := Res) [.ok (.str hay), .ok (.str needle)] = .ok (.int (Int64.ofNat p)) ∧
+        Spec.Text.FirstOcc hay needle 0 p) ∨
+    (biStrpos (m := Res) [.ok (.str hay), .ok (.str needle)] = .ok (.null Ty.int) ∧ Spec.Text.NoOcc hay needle 0) := by
+  have e : biStrpos (m := Res) [.ok (.str hay), .ok (.str needle)] =
+      match findFrom hay needle 0 with
+      | some p => .ok (.int (Int64.ofNat p))
+      | none => .ok (.null Ty.int) := by rfl
+  obtain ⟨h1, h2⟩ := findFrom_spec hay needle 0
+  rw [e]
+  cases hf : findFrom hay needle 0 with
+  | some p => exact .inl ⟨p, rfl, h1 p hf⟩
+  | none => exact .inr ⟨rfl, h2 hf⟩
+
+example : biStrpos (m := Res) [.ok (.str [97, 0, 98, 0, 98]), .ok (.str [0, 98]), .ok (.int 2)] = .ok (.int 3) := by rfl
+
+/-! ## replace -/
+
+/-- **replace(x, "", z) = x** (after `fix: replace ""` in /repo: the pinned code never returned). For
+every string `x` and every replacement value. -/
+theorem replace_empty_needle (s : Bytes) (z : Val) :
+    biReplace (m := Res) [.ok (.str s), .ok (.str []), .ok z] = .ok (.str s) ∨
+    biReplace (m := Res) [.ok (.str s), .ok (.str []), .ok z] = .err Gen.EXC_RT_FUNC_ARG_TYPE_S := by
+  have e : biReplace (m := Res) [.ok (.str s), .ok (.str []), .ok z] =
+      match z.type.major with
+      | .none | .str => .ok (.str s)
+      | _ => .err Gen.EXC_RT_FUNC_ARG_TYPE_S := by
+    simp only [biReplace, Res.ok_bind, Res.pure_eq, argTypeErr_res, Res.liftM_eq, Val.type, Ty.str, Val.isNull]
+    cases z.type.major <;> rfl
+  rw [e]
+  cases z.type.major <;> simp
+
+/-- … and with a string replacement it is exactly `x`. -/
+theorem replace_empty_needle_str (s r : Bytes) :
+    biReplace (m := Res) [.ok (.str s), .ok (.str []), .ok (.str r)] = .ok (.str s) := by rfl
+
+/-- A needle that does not occur leaves the string unchanged (the loop of builtin_replace.cpp ends at
+the first failed `find`), for every non-empty needle. -/
+theorem replace_absent_needle (s needle r : Bytes) (hne : needle ≠ []) (h : findFrom s needle 0 = none) :
+    biReplace (m := Res) [.ok (.str s), .ok (.str needle), .ok (.str r)] = .ok (.str s) := by
+  have hne' : needle.isEmpty = false := by cases needle <;> simp_all
+  have e : biReplace (m := Res) [.ok (.str s), .ok (.str needle), .ok (.str r)] =
+      if needle.isEmpty then .ok (.str s) else .ok (.str (replaceLoop s needle r (s.length + 1) 0 [])) := by rfl
+  rw [e, hne', replaceLoop_no_occurrence s needle r s.length h]; rfl
+
+example : biReplace (m := Res) [.ok (.str [97, 98, 97]), .ok (.str [97]), .ok (.str [0, 0])] = .ok (.str [0, 0, 98, 0, 0]) := by rfl
+
+/-! ## upper / lower / trim / strlen -/
+
+/-- `upper`, `lower` map bytes one to one: the length is preserved, for all strings (8-bit clean: bytes
+outside a–z / A–Z are unchanged). -/
+theorem upper_length (fmt : Num.F64 → Bytes) (s : Bytes) :
+    ∃ r, evalBuiltin (m := Res) fmt "upper" [.ok (.str s)] = some (.ok (.str r)) ∧ r.length = s.length ∧
+      ∀ i (h : i < s.length), (97 ≤ s[i] ∧ s[i] ≤ 122) ∨ r[i]? = some s[i] :=
+  ⟨s.map upperByte, rfl, List.length_map _, fun i h => by
+    by_cases hc : 97 ≤ s[i] ∧ s[i] ≤ 122
+    · exact .inl hc
+    · right; simp [List.getElem?_map, List.getElem?_eq_getElem h, upperByte, hc]⟩
+
+theorem lower_length (fmt : Num.F64 → Bytes) (s : Bytes) :
+    ∃ r, evalBuiltin (m := Res) fmt "lower" [.ok (.str s)] = some (.ok (.str r)) ∧ r.length = s.length ∧
+      ∀ i (h : i < s.length), (65 ≤ s[i] ∧ s[i] ≤ 90) ∨ r[i]? = some s[i] :=
+  ⟨s.map lowerByte, rfl, List.length_map _, fun i h => by
+    by_cases hc : 65 ≤ s[i] ∧ s[i] ≤ 90
+    · exact .inl hc
+    · right; simp [List.getElem?_map, List.getElem?_eq_getElem h, lowerByte, hc]⟩
+
+/-- `trim`, `ltrim`, `rtrim` return a contiguous sublist (infix / suffix / prefix) of the argument,
+hence never longer, for all strings. -/
+theorem trim_infix (fmt : Num.F64 → Bytes) (s : Bytes) :
+    (∃ r, evalBuiltin (m := Res) fmt "trim" [.ok (.str s)] = some (.ok (.str r)) ∧ r <:+: s ∧ r.length ≤ s.length) ∧
+    (∃ r, evalBuiltin (m := Res) fmt "ltrim" [.ok (.str s)] = some (.ok (.str r)) ∧ r <:+ s ∧ r.length ≤ s.length) ∧
+    (∃ r, evalBuiltin (m := Res) fmt "rtrim" [.ok (.str s)] = some (.ok (.str r)) ∧ r <+: s ∧ r.length ≤ s.length) :=
+  ⟨⟨_, rfl, Lemmas.trim_infix s, (Lemmas.trim_infix s).length_le⟩,
+   ⟨_, rfl, dropWhileSp_suffix s, (dropWhileSp_suffix s).length_le⟩,
+   ⟨_, rfl, rtrimSp_prefix s, (rtrimSp_prefix s).length_le⟩⟩
+
+example (fmt : Num.F64 → Bytes) : evalBuiltin (m := Res) fmt "trim" [.ok (.str [32, 32, 0, 32, 255, 32])] = some (.ok (.str [0, 32, 255])) := by rfl
+
+/-- `strlen` is the number of bytes (NUL and high bytes count), for every string of representable length. -/
+theorem strlen_value (s : Bytes) (hlen : s.length < 2 ^ 63) :
+    ∃ n, biStrlen (m := Res) [.ok (.str s)] = .ok (.int n) ∧ n.toInt = s.length :=
+  ⟨lenI s, rfl, lenI_toInt s hlen⟩
+
+/-! ## hex -/
+
+/-- Whenever `hex(v, n)` returns, the result consists of between 1 and 16 lower-case hexadecimal
+digits, for every value and pad count. -/
+theorem hex_digits (v n : Int64) (r : Val) (h : biHex (m := Res) [.ok (.int v), .ok (.int n)] = .ok r) :
+    ∃ ds, r = .str ds ∧ 1 ≤ ds.length ∧ ds.length ≤ 16 ∧ ∀ c ∈ ds, isHexDigitLower c = true := by
+  have e : biHex (m := Res) [.ok (.int v), .ok (.int n)] = hexLoop v 15 n 0 [] >>= fun s => .ok (.str s) := by rfl
+  rw [e] at h
+  cases hl : hexLoop v 15 n 0 [] with
+  | ok out =>
+    rw [hl] at h
+    obtain ⟨ds, e1, l1, l2, hd⟩ := hexLoop_ok v 15 n 0 [] out hl
+    rw [List.nil_append] at e1
+    subst e1
+    injection h with h
+    exact ⟨out, h.symm, l1, l2, hd⟩
+  | err c x => rw [hl] at h; cases h
+  | haz x => rw [hl] at h; cases h
+  | unmodelled => rw [hl] at h; cases h
+
+example : biHex (m := Res) [.ok (.int 255), .ok (.int 4)] = .ok (.str [48, 48, 102, 102]) := by rfl
+example : biHex (m := Res) [.ok (.int (-1))] = .ok (.str (List.replicate 16 102)) := by rfl
+
+/-! ## raw / hash -/
+
+/-- **raw(n, v)** for ALL integers: a negative size is refused with INDEX_RANGE, a fill code outside
+0..255 with OUT_OF_RANGE, otherwise the result is `n` bytes of value `v` (`toNatClampNeg n` is
+`n.toInt.toNat`). -/
+theorem raw_contract (n v : Int64) :
+    biRaw (m := Res) [.ok (.int n), .ok (.int v)] =
+      if n.toInt < 0 then .err Gen.EXC_RT_INDEX_RANGE_S
+      else if 0 ≤ v.toInt ∧ v.toInt ≤ 255 then .ok (.raw (List.replicate n.toNatClampNeg v.toUInt64.toUInt8))
+      else .err Gen.EXC_RT_OUT_OF_RANGE := by
+  have h0 : (n < 0) ↔ n.toInt < 0 := Int64.lt_iff_toInt_lt
+  have h1 : (v < 0) ↔ v.toInt < 0 := Int64.lt_iff_toInt_lt
+  have h2 : (v > 255) ↔ v.toInt > 255 := by
+    show (255 : Int64) < v ↔ _
+    rw [Int64.lt_iff_toInt_lt]; rfl
+  have e : biRaw (m := Res) [.ok (.int n), .ok (.int v)] =
+      if n < 0 then .err Gen.EXC_RT_INDEX_RANGE_S
+      else if v < 0 || v > 255 then .err Gen.EXC_RT_OUT_OF_RANGE
+      else .ok (.raw (List.replicate n.toNatClampNeg v.toUInt64.toUInt8)) := by
+    simp [biRaw, Val.type, Val.isNull, Val.asInt, Ty.int]
+  rw [e]
+  by_cases hn : n.toInt < 0
+  · simp [h0, hn]
+  · by_cases hv : 0 ≤ v.toInt ∧ v.toInt ≤ 255
+    · have a : ¬ v.toInt < 0 := by omega
+      have b : ¬ v.toInt > 255 := by omega
+      simp [h0, hn, h1, h2, hv, a, b]
+    · have : v.toInt < 0 ∨ v.toInt > 255 := by omega
+      rcases this with a | b <;> simp [*]
+
+example : biRaw (m := Res) [.ok (.int 3), .ok (.int 200)] = .ok (.raw [200, 200, 200]) := by rw [raw_contract]; rfl
+example : biRaw (m := Res) [.ok (.int 3), .ok (.int 256)] = .err Gen.EXC_RT_OUT_OF_RANGE := by rw [raw_contract]; rfl
+example : biRaw (m := Res) [.ok (.int (-1)), .ok (.int 0)] = .err Gen.EXC_RT_INDEX_RANGE_S := by rw [raw_contract]; rfl
+
+/-- **hash(x, m)** for every string and ALL bucket counts: `1 ≤ m ≤ 2^32 − 1` gives a bucket in
+`[0, m)`; every other count (zero — the repaired SIGFPE —, negative, ≥ 2^32) is refused with OUT_OF_RANGE. -/
+theorem hash_range (s : Bytes) (m : Int64) :
+    (1 ≤ m.toInt ∧ m.toInt ≤ 4294967295 →
+      ∃ h, biHash (m := Res) [.ok (.str s), .ok (.int m)] = .ok (.int h) ∧ 0 ≤ h.toInt ∧ h.toInt < m.toInt) ∧
+    (¬ (1 ≤ m.toInt ∧ m.toInt ≤ 4294967295) →
+      biHash (m := Res) [.ok (.str s), .ok (.int m)] = .err Gen.EXC_RT_OUT_OF_RANGE) := by
+  have h1 : (m < 1) ↔ m.toInt < 1 := Int64.lt_iff_toInt_lt
+  have h2 : (m > 4294967295) ↔ m.toInt > 4294967295 := by
+    show (4294967295 : Int64) < m ↔ _
+    rw [Int64.lt_iff_toInt_lt]; rfl
+  have e : biHash (m := Res) [.ok (.str s), .ok (.int m)] =
+      if m < 1 || m > 4294967295 then .err Gen.EXC_RT_OUT_OF_RANGE
+      else .ok (.int (djb32 s % m.toUInt64.toUInt32).toUInt64.toInt64) := by
+    simp [biHash, Val.type, Val.isNull, Val.asInt, Val.asStr, Ty.int, Ty.str]
+  rw [e]
+  constructor
+  · intro hm
+    have a : ¬ m.toInt < 1 := by omega
+    have b : ¬ m.toInt > 4294967295 := by omega
+    have hc : ¬ ((decide (m < 1) || decide (m > 4294967295)) = true) := by simp [h1, h2, a, b]
+    rw [if_neg hc]
+    refine ⟨_, rfl, ?_⟩
+    have hm32 : m.toUInt64.toUInt32.toNat = m.toInt.toNat := by
+      rw [UInt64.toNat_toUInt32, toNat_toUInt64_of_nonneg m (by omega)]
+      omega
+    have hlt : (djb32 s % m.toUInt64.toUInt32).toNat < m.toInt.toNat := by
+      rw [UInt32.toNat_mod, hm32]
+      exact Nat.mod_lt _ (by omega)
+    have ht : ((djb32 s % m.toUInt64.toUInt32).toUInt64.toInt64).toInt = ((djb32 s % m.toUInt64.toUInt32).toNat : Int) := by
+      rw [toInt_toInt64, UInt32.toNat_toUInt64]
+      unfold Spec.wrap
+      rw [Int.bmod_eq_of_le] <;> omega
+    rw [ht]; omega
+  · intro hm
+    have : m.toInt < 1 ∨ m.toInt > 4294967295 := by omega
+    rcases this with a | b <;> simp [*]
+
+example : ∃ h, biHash (m := Res) [.ok (.str [0, 255]), .ok (.int 7)] = .ok (.int h) ∧ 0 ≤ h.toInt ∧ h.toInt < 7 :=
+  (hash_range [0, 255] 7).1 (by decide)
+example : biHash (m := Res) [.ok (.str [97]), .ok (.int 0)] = .err Gen.EXC_RT_OUT_OF_RANGE := (hash_range [97] 0).2 (by decide)
+
+/-! ## tokenize -/
+
+/-- **tokenize / join.** With null trimming off (third argument absent or false), the pieces of
+`tokenize(x, sep)` joined by `sep` give back `x` — for every string and every separator (also an
+empty or absent one, also separators that overlap themselves). -/
+theorem tokenize_join (s sep : Bytes) :
+    ∃ pieces, biTokenize (m := Res) [.ok (.str s), .ok (.str sep)] = .ok (.tab tabStrTy [] (pieces.map Val.str)) ∧
+      Spec.Text.join sep pieces = s :=
+  ⟨tokenize s sep false, rfl, Lemmas.tokenize_join s sep⟩
+
+theorem tokenize_join_false (s sep : Bytes) :
+    ∃ pieces, biTokenize (m := Res) [.ok (.str s), .ok (.str sep), .ok (.bool false)] =
+        .ok (.tab tabStrTy [] (pieces.map Val.str)) ∧ Spec.Text.join sep pieces = s :=
+  ⟨tokenize s sep false, rfl, Lemmas.tokenize_join s sep⟩
+
+example : tokenize [97, 44, 44, 98, 44] [44] false = [[97], [], [98], []] := by decide
+example : tokenize [97, 44, 44, 98, 44] [44] true = [[97], [98]] := by decide
+
+/-! ## Code range of `put` / `concat` on strings and byte arrays (Model/Members.lean) -/
+
+/-- The character-code argument of the byte-level members (`Integer c = *a.integer(); if (c < 0 || c >
+255) throw OUT_OF_RANGE`): accepted exactly in 0..255, and then it is that byte. -/
+theorem charArg_range (c : Int64) :
+    charArg (.int c) = if 0 ≤ c.toInt ∧ c.toInt ≤ 255 then .ok (byteOfInt c) else .err Gen.EXC_RT_OUT_OF_RANGE := by
+  have h0 : (c < 0) ↔ c.toInt < 0 := Int64.lt_iff_toInt_lt
+  have h1 : (c > 255) ↔ c.toInt > 255 := by
+    show (255 : Int64) < c ↔ _
+    rw [Int64.lt_iff_toInt_lt]; rfl
+  have e : charArg (.int c) = if c < 0 || c > 255 then .err Gen.EXC_RT_OUT_OF_RANGE else .ok (byteOfInt c) := by rfl
+  rw [e]
+  by_cases hc : 0 ≤ c.toInt ∧ c.toInt ≤ 255
+  · have a : ¬ (c < 0) := by rw [h0]; omega
+    have b : ¬ (c > 255) := by rw [h1]; omega
+    simp [hc, a, b]
+  · have : (c < 0) ∨ (c > 255) := by rw [h0, h1]; omega
+    rcases this with a | b <;> simp [*]
+
+theorem byteOfInt_toNat (c : Int64) (h : 0 ≤ c.toInt ∧ c.toInt ≤ 255) : ((byteOfInt c).toNat : Int) = c.toInt := by
+  unfold byteOfInt
+  rw [UInt8.toNat_ofNat']
+  omega
+
+/-- `x.put(p, c)` on a string or a byte array with a valid position: a code outside 0..255 is
+rejected with OUT_OF_RANGE, for every content, position and code; inside, byte `p` becomes `c`. -/
+theorem put_str_code_range (s : Bytes) (p c : Int64) (isConst : Bool) (hp : inRange p s.length = true) :
+    mPut (.str s) (.int p) (.int c) isConst =
+      if 0 ≤ c.toInt ∧ c.toInt ≤ 255 then
+        .ok (.str (listPut s (idxOf p) (byteOfInt c)), if isConst then .str s else .str (listPut s (idxOf p) (byteOfInt c)))
+      else .err Gen.EXC_RT_OUT_OF_RANGE := by
+  have e : mPut (.str s) (.int p) (.int c) isConst =
+      if !inRange p s.length then idxErr else
+      match charArg (.int c) with
+      | .ok b => .ok (.str (listPut s (idxOf p) b), if isConst then .str s else .str (listPut s (idxOf p) b))
+      | .err c x => .err c x
+      | .haz h => .haz h
+      | .unmodelled => .unmodelled := by rfl
+  rw [e, hp, charArg_range]
+  by_cases hc : 0 ≤ c.toInt ∧ c.toInt ≤ 255 <;> simp [hc]
+
+theorem put_raw_code_range (s : Bytes) (p c : Int64) (isConst : Bool) (hp : inRange p s.length = true) :
+    mPut (.raw s) (.int p) (.int c) isConst =
+      if 0 ≤ c.toInt ∧ c.toInt ≤ 255 then
+        .ok (.raw (listPut s (idxOf p) (byteOfInt c)), .raw (listPut s (idxOf p) (byteOfInt c)))
+      else .err Gen.EXC_RT_OUT_OF_RANGE := by
+  have e : mPut (.raw s) (.int p) (.int c) isConst =
+      if !inRange p s.length then idxErr else
+      match charArg (.int c) with
+      | .ok b => .ok (.raw (listPut s (idxOf p) b), .raw (listPut s (idxOf p) b))
+      | .err c x => .err c x
+      | .haz h => .haz h
+      | .unmodelled => .unmodelled := by rfl
+  rw [e, hp, charArg_range]
+  by_cases hc : 0 ≤ c.toInt ∧ c.toInt ≤ 255 <;> simp [hc]
+
+/-- `x.concat(c)` with an integer code on a byte array: outside 0..255 → OUT_OF_RANGE; inside, the
+byte is appended. -/
+theorem concat_raw_code_range (s : Bytes) (c : Int64) (isConst : Bool) :
+    mConcat (.raw s) (.int c) isConst =
+      if 0 ≤ c.toInt ∧ c.toInt ≤ 255 then .ok (.raw (s ++ [byteOfInt c]), .raw (s ++ [byteOfInt c]))
+      else .err Gen.EXC_RT_OUT_OF_RANGE := by
+  have e : mConcat (.raw s) (.int c) isConst =
+      match charArg (.int c) with
+      | .ok b => .ok (.raw (s ++ [b]), .raw (s ++ [b]))
+      | .err c x => .err c x
+      | .haz h => .haz h
+      | .unmodelled => .unmodelled := by rfl
+  rw [e, charArg_range]
+  by_cases hc : 0 ≤ c.toInt ∧ c.toInt ≤ 255 <;> simp [hc]
+
+example : mPut (.raw [1, 2, 3]) (.int 1) (.int 256) false = .err Gen.EXC_RT_OUT_OF_RANGE := by
+  rw [put_raw_code_range _ _ _ _ (by decide)]; rfl
+example : mPut (.str [1, 2, 3]) (.int 1) (.int 255) false = .ok (.str [1, 255, 3], .str [1, 255, 3]) := by
+  rw [put_str_code_range _ _ _ _ (by decide)]; rfl
+example : mConcat (.raw [1]) (.int (-1)) false = .err Gen.EXC_RT_OUT_OF_RANGE := by
+  rw [concat_raw_code_range]; rfl
 
 end BlocV.C10
